@@ -4,24 +4,27 @@
 (* MutableArchive must be explained by the actions of MpqMap.                                      *)
 (*                                                                                                 *)
 (* P-conjuncts (verdict):                                                                          *)
-(*   - every operation returned (res = "hang" / "panic" matches no action: the trace is stuck)     *)
-(*   - res = ok only where the map operation is defined; a failure (a Fail action) only where a       *)
-(*     plain map with capacity refuses, and then nothing changes                                   *)
+(*   - every call returned (res = "hang" / "panic" matches no action)                              *)
+(*   - res = ok only where the map operation is defined; a refusal only where a plain map with     *)
+(*     capacity refuses (the Fail actions of MpqMap), and then nothing changes                     *)
 (*   - after every close, a fresh Archive::open succeeds (Check) and read_file of EVERY name of    *)
 (*     the universe equals vdisk (token equality; notfound for absent).  Names the history never   *)
 (*     touched are part of the universe, so "untouched files stay bit-identical" is the same check.*)
-(* A wrong Read is reported (BAD) and the model is resynchronised with the observation so that one *)
-(* lost file does not cascade; a wrong operation result stops the trace (TRACE_STUCK_AT).          *)
-(* D (DRIFT only): the List observation, the error variant of a refusal.                           *)
+(* Totalised style: an event no action explains is reported as <<"BAD", line, why, ...>>.  After a *)
+(* wrong Read the model is resynchronised with the observation (one lost file does not cascade);   *)
+(* after a wrong call result the rest of that trace is skipped up to the next Reset (vskip).       *)
+(* D (DRIFT only): the List observation; agreement of each Read with what the model of the code    *)
+(* (MpqHashTable implementation machine, run by Gen_MpqHashTable) predicted.                       *)
 (***************************************************************************************************)
 EXTENDS MpqMap, Sequences, Json, IOUtils, TLC, TLCExt
 
 Rec == ndJsonDeserialize(IOEnv.TRACE)
 VARIABLES tl,
           vreset,     \* index of the Reset event of the current trace (its `preds` = predictions of the code model)
-          voptok      \* model token key ("i:<name>", "o<k>") -> content token actually used by the driver
-tvars == <<tl, vdisk, vsess, vopen, vdirty, vcap, vextra, vreset, voptok>>
-Keep == UNCHANGED <<vreset, voptok>>
+          voptok,     \* model token key ("i:<name>", "o<k>") -> content token actually used by the driver
+          vskip       \* the current trace has been rejected: consume its remaining events
+tvars == <<tl, vdisk, vsess, vopen, vdirty, vcap, vextra, vreset, voptok, vskip>>
+Keep == UNCHANGED <<vreset, voptok, vskip>>
 
 Ev == Rec[tl]
 Is(k) == Ev.ev = k
@@ -29,63 +32,89 @@ Is(k) == Ev.ev = k
 T_Reset == /\ Is("Reset")
            /\ vdisk' = Ev.initial /\ vsess' = Ev.initial /\ vopen' = FALSE /\ vdirty' = FALSE
            /\ vcap' = Ev.hsize /\ vextra' = Ev.nspecial
-           /\ vreset' = tl /\ voptok' = Ev.toks
+           /\ vreset' = tl /\ voptok' = Ev.toks /\ vskip' = FALSE
 
-T_Open  == Is("Open") /\ Ev.res = "ok" /\ Open /\ Keep
+\* no action of MpqMap explains the event: report it, give up on this trace
+Reject(why) == /\ PrintT(<<"BAD", tl, why>>)
+               /\ vskip' = TRUE /\ UNCHANGED <<mvars, vreset, voptok>>
 
-T_Add   == /\ Is("Add") /\ UNCHANGED vreset
-           /\ voptok' = [x \in DOMAIN voptok \cup {Ev.okey} |-> IF x = Ev.okey THEN Ev.tok ELSE voptok[x]]
-           /\ \/ Ev.res = "ok" /\ Add(Ev.n, Ev.tok, Ev.rep)
-              \/ Ev.res = "exists" /\ AddFailExists(Ev.n, Ev.rep)
-              \/ Ev.res \notin {"ok", "exists", "hang", "panic", "notfound"} /\ AddFailFull(Ev.n)
+T_Open  == /\ Is("Open")
+           /\ IF Ev.res = "ok" /\ CanOpen THEN Open /\ Keep ELSE Reject("open")
 
-T_Remove == /\ Is("Remove") /\ Keep
-            /\ \/ Ev.res = "ok" /\ Remove(Ev.n)
-               \/ Ev.res = "notfound" /\ RemoveFail(Ev.n)
+NoteTok == voptok' = [x \in DOMAIN voptok \cup {Ev.okey} |-> IF x = Ev.okey THEN Ev.tok ELSE voptok[x]]
+Refusal(r) == r \notin {"ok", "exists", "hang", "panic", "notfound"}        \* err:<Variant>
+T_Add   == /\ Is("Add")
+           /\ IF Ev.res = "ok" /\ CanAdd(Ev.n, Ev.rep) THEN Add(Ev.n, Ev.tok, Ev.rep) /\ NoteTok /\ UNCHANGED <<vreset, vskip>>
+              ELSE IF Ev.res = "exists" /\ CanAddFailExists(Ev.n, Ev.rep) THEN AddFailExists(Ev.n, Ev.rep) /\ Keep
+              ELSE IF Refusal(Ev.res) /\ CanAddFailFull(Ev.n) THEN AddFailFull(Ev.n) /\ Keep
+              ELSE Reject("add")
 
-T_Rename == /\ Is("Rename") /\ Keep
-            /\ \/ Ev.res = "ok" /\ Rename(Ev.n, Ev.m)
-               \/ Ev.res \in {"notfound", "exists"} /\ RenameFail(Ev.n, Ev.m)
+T_Remove == /\ Is("Remove")
+            /\ IF Ev.res = "ok" /\ CanRemove(Ev.n) THEN Remove(Ev.n) /\ Keep
+               ELSE IF Ev.res = "notfound" /\ CanRemoveFail(Ev.n) THEN RemoveFail(Ev.n) /\ Keep
+               ELSE Reject("remove")
 
-T_Flush   == Is("Flush") /\ Ev.res = "ok" /\ Flush /\ Keep
-T_Compact == Is("Compact") /\ Ev.res = "ok" /\ Compact(Ev.hsize, Ev.nspecial) /\ Keep
-T_Close   == Is("Close") /\ Ev.res = "ok" /\ Close /\ Keep
+T_Rename == /\ Is("Rename")
+            /\ IF Ev.res = "ok" /\ CanRename(Ev.n, Ev.m) THEN Rename(Ev.n, Ev.m) /\ Keep
+               ELSE IF Ev.res \in {"notfound", "exists"} /\ CanRenameFail(Ev.n, Ev.m) THEN RenameFail(Ev.n, Ev.m) /\ Keep
+               ELSE Reject("rename")
+
+T_Flush   == Is("Flush")   /\ IF Ev.res = "ok" /\ vopen THEN Flush /\ Keep ELSE Reject("flush")
+T_Compact == Is("Compact") /\ IF Ev.res = "ok" /\ vopen THEN Compact(Ev.hsize, Ev.nspecial) /\ Keep ELSE Reject("compact")
+T_Close   == Is("Close")   /\ IF Ev.res = "ok" /\ vopen THEN Close /\ Keep ELSE Reject("close")
 \* a fresh Archive::open of the file after the session was closed must succeed
-T_Check   == Is("Check") /\ Ev.res = "ok" /\ ~vopen /\ UNCHANGED mvars /\ Keep
+T_Check   == Is("Check")   /\ IF Ev.res = "ok" /\ ~vopen THEN UNCHANGED mvars /\ Keep ELSE Reject("check")
 
 ReadWhy(e) == IF vdisk[e.n] = None THEN "ghost"                    \* absent name is readable
               ELSE IF e.res = "notfound" THEN "lost"                \* present name not found
               ELSE IF e.res = "ok" THEN "corrupt"                   \* other bytes than were stored
               ELSE "unreadable"                                     \* present name, read fails
-\* D: does the observation equal what the model of the code (MpqHashTable, implementation machine,
-\* run by Gen_MpqHashTable) predicted for this name at this checkpoint?
+\* D: does the observation equal what the model of the code predicted for this name at this checkpoint?
 PredFor(e) == LET ps == Rec[vreset].preds IN IF e.ck <= Len(ps) THEN ps[e.ck] ELSE [kind |-> "none"]
+\* "corrupt:<cause>" / "corrupt!:<cause>": the code model predicts unreadable or wrong bytes, and why
+BadPred == {"corrupt:" \o c : c \in {"overrun", "fixkey", "renkey", "unopenable"}} \cup
+           {"corrupt!:" \o c : c \in {"overrun", "fixkey", "renkey", "unopenable"}}
+PredVal(e) == LET p == PredFor(e) IN IF p.kind = "map" THEN p.map[e.n] ELSE "nopred"
+\* the cause the code model names for a predicted corruption ("" when it predicts a plain value)
+PredCause(e) == IF PredVal(e) \in BadPred THEN PredVal(e) ELSE ""
 ModelSays(e) == LET p == PredFor(e) IN
     IF p.kind # "map" THEN "nopred"
     ELSE LET v == p.map[e.n] IN
          IF v = "none" THEN (IF e.res = "notfound" THEN "asmodel" ELSE "notmodel")
-         ELSE IF v = "corrupt" THEN (IF e.res # "notfound" THEN "asmodel" ELSE "notmodel")
+         ELSE IF v \in BadPred THEN (IF e.res # "notfound" THEN "asmodel" ELSE "notmodel")
          ELSE IF e.res = "ok" /\ v \in DOMAIN voptok /\ voptok[v] = e.tok THEN "asmodel" ELSE "notmodel"
-T_Read == /\ Is("Read") /\ ~vopen /\ Keep
-          /\ IF ReadIs(Ev.n, Ev.res, Ev.tok)
+\* marker for "present, but reading it failed" after a reported Read (the same failure at the next
+\* checkpoint is the same observation, not a new one)
+Unread == "?unreadable"
+T_Read == /\ Is("Read") /\ Keep
+          /\ IF ReadIs(Ev.n, Ev.res, Ev.tok) \/ (~vopen /\ vdisk[Ev.n] = Unread /\ Ev.res \notin {"ok", "notfound"})
              THEN /\ UNCHANGED mvars
                   /\ IF ModelSays(Ev) = "notmodel" THEN PrintT(<<"DRIFT", tl, "pred">>) ELSE TRUE
-             ELSE /\ PrintT(<<"BAD", tl, ReadWhy(Ev), ModelSays(Ev)>>)
-                  /\ vdisk' = [vdisk EXCEPT ![Ev.n] = IF Ev.res = "ok" THEN Ev.tok ELSE None]
+             ELSE /\ PrintT(<<"BAD", tl, ReadWhy(Ev), ModelSays(Ev), PredCause(Ev)>>)
+                  /\ vdisk' = [vdisk EXCEPT ![Ev.n] = IF Ev.res = "ok" THEN Ev.tok ELSE IF Ev.res = "notfound" THEN None ELSE Unread]
                   /\ vsess' = vdisk'
                   /\ UNCHANGED <<vopen, vdirty, vcap, vextra>>
 
 \* D: list() after reopen shows exactly the present names (plus special files, logged with "?")
 Listed(e) == {e.names[j] : j \in 1..Len(e.names)}
-T_List == /\ Is("List") /\ ~vopen /\ UNCHANGED mvars /\ Keep
+T_List == /\ Is("List") /\ UNCHANGED mvars /\ Keep
           /\ IF Ev.res = "ok" /\ Present(vdisk) = {x \in Listed(Ev) : x \in DOMAIN vdisk}
              THEN TRUE ELSE PrintT(<<"DRIFT", tl, "list">>)
 
-TInit == tl = 1 /\ MapInit(<<>>, 0, 0) /\ vreset = 0 /\ voptok = <<>>
+\* D (only when the tree carries the optional verif_state() hook): after a call the number of occupied
+\* hash slots and the dirty flag of the real object equal the abstract map's
+StDrift == IF Ev.ev \in {"Add", "Remove", "Rename", "Flush"} /\ ~vskip' /\ Ev.st.has
+              /\ (Ev.st.live # Cardinality(Present(vsess')) + vextra' \/ Ev.st.dirty # vdirty')
+           THEN PrintT(<<"DRIFT", tl, "state">>) ELSE TRUE
+T_Skip == ~Is("Reset") /\ UNCHANGED <<mvars, vreset, voptok, vskip>>
+
+TInit == tl = 1 /\ MapInit(<<>>, 0, 0) /\ vreset = 0 /\ voptok = <<>> /\ vskip = FALSE
 TNext == /\ tl <= Len(Rec)
          /\ tl' = tl + 1
-         /\ \/ T_Reset \/ T_Open \/ T_Add \/ T_Remove \/ T_Rename \/ T_Flush \/ T_Compact \/ T_Close
-            \/ T_Check \/ T_Read \/ T_List
+         /\ IF vskip /\ ~Is("Reset") THEN T_Skip
+            ELSE \/ T_Reset \/ T_Open \/ T_Add \/ T_Remove \/ T_Rename \/ T_Flush \/ T_Compact \/ T_Close
+                 \/ T_Check \/ T_Read \/ T_List
+         /\ StDrift
 
 Accepted == LET d == TLCGet("stats").diameter IN
             IF d - 1 = Len(Rec) THEN PrintT(<<"CONSUMED", Len(Rec)>>) ELSE Print(<<"TRACE_STUCK_AT", d>>, FALSE)
